@@ -2,9 +2,9 @@ package main
 
 import (
 	"fmt"
-	"os"
 	"go/token"
 	"go/types"
+	"os"
 	"sort"
 	"strings"
 
@@ -1462,6 +1462,10 @@ func (bi *batchInfo) argCounts(r *rep.Report) {
 					}
 				}
 				if !known {
+					// bookkeeping of a loop inside an inlined helper (initialising the result vector): not a guard on the inputs
+					if strings.Contains(a.Key, "PHI:") || strings.Contains(a.Key, "local:make") {
+						continue
+					}
 					unrec[a.Key] = true
 					ok = false
 					break
@@ -1475,26 +1479,27 @@ func (bi *batchInfo) argCounts(r *rep.Report) {
 				hit = append(hit, pa)
 			}
 		}
-		if len(hit) != 1 {
-			note(fmt.Sprintf("lengths %v: %d consistent prologue paths", l, len(hit)))
+		if len(hit) == 0 {
+			note(fmt.Sprintf("lengths %v: no consistent prologue path", l))
 			continue
 		}
 		n++
-		pa := hit[0]
 		same := l[0] == l[1] && l[1] == l[2]
-		switch {
-		case !unwrapOK:
-			if pa.Kind != "return" {
-				note("an options error does not return")
-			}
-		case !same:
-			okR := pa.Kind == "return" && len(pa.Results) == 3 && pa.Results[0].String() == "#false" && pa.Results[1].String() == "nil" && pa.Results[2].String() != "nil" && !strings.HasPrefix(pa.Results[2].String(), "res(unwrap(")
-			if !okR {
-				note(fmt.Sprintf("lengths (publicKeys, messages, sigs) = %v are accepted: the prologue %s instead of returning the count-mismatch error", l, map[bool]string{true: "returns " + fmt.Sprint(pa.Results), false: "continues into the entry loops"}[pa.Kind == "return"]))
-			}
-		default:
-			if pa.Kind == "return" && !(l[0] == 0 && len(pa.Results) == 3 && pa.Results[0].String() == "#true" && pa.Results[2].String() == "nil") {
-				note(fmt.Sprintf("equal lengths %v are refused: %v", l, pa.Results))
+		for _, pa := range hit {
+			switch {
+			case !unwrapOK:
+				if pa.Kind != "return" {
+					note("an options error does not return")
+				}
+			case !same:
+				okR := pa.Kind == "return" && len(pa.Results) == 3 && pa.Results[0].String() == "#false" && pa.Results[1].String() == "nil" && pa.Results[2].String() != "nil" && !strings.HasPrefix(pa.Results[2].String(), "res(unwrap(")
+				if !okR {
+					note(fmt.Sprintf("lengths (publicKeys, messages, sigs) = %v are accepted: the prologue %s instead of returning the count-mismatch error", l, map[bool]string{true: "returns " + fmt.Sprint(pa.Results), false: "continues into the entry loops"}[pa.Kind == "return"]))
+				}
+			default:
+				if pa.Kind == "return" && !(l[0] == 0 && len(pa.Results) == 3 && pa.Results[0].String() == "#true" && pa.Results[2].String() == "nil") {
+					note(fmt.Sprintf("equal lengths %v are refused: %v", l, pa.Results))
+				}
 			}
 		}
 	}
@@ -1776,4 +1781,97 @@ func initAllTrue(fn *ssa.Function, mk *ssa.MakeSlice, cell *ssa.Alloc) bool {
 		}
 	}
 	return false
+}
+
+// ruleLimbSizeArgs (B10-limb-size): the variable-time scalar helpers compare / subtract limbs limbSize..0. In the
+// multi-scalar family every constant that reaches their limbSize parameter — directly, or as the start of a counter
+// that is only ever decremented — must be LimbSize-1 of the selected scalar layout. Checked on every configuration:
+// on the 5-limb layout a literal 4 and LimbSize-1 are the same constant, on the 9-limb layout they are not.
+func ruleLimbSizeArgs(r *rep.Report, p *load.Program, rl *roles.Roles) {
+	cfg := p.Cfg.Name
+	if rl == nil || rl.Msm == nil {
+		return
+	}
+	_, n, _ := modmLayout(p)
+	if n == 0 {
+		return
+	}
+	want := int64(n - 1)
+	mod, _, _ := ssau.Reachable(rl.Msm)
+	var bad []string
+	sites := 0
+	var judge func(v ssa.Value, depth int, where string)
+	judge = func(v ssa.Value, depth int, where string) {
+		if depth > 6 {
+			return
+		}
+		switch x := v.(type) {
+		case *ssa.Const:
+			if c, ok := constInt(x); ok && c != want {
+				bad = append(bad, fmt.Sprintf("%s: constant %d, want LimbSize-1 = %d", where, c, want))
+			}
+		case *ssa.Phi:
+			for _, e := range x.Edges {
+				if bo, ok := e.(*ssa.BinOp); ok && bo.X == ssa.Value(x) {
+					continue // the counter's own decrement
+				}
+				if e != ssa.Value(x) {
+					judge(e, depth+1, where)
+				}
+			}
+		case *ssa.BinOp:
+			if x.Op == token.SUB {
+				if c, ok := constInt(x.Y); ok && c >= 0 {
+					if _, isPhi := x.X.(*ssa.Phi); isPhi {
+						judge(x.X, depth+1, where)
+					}
+				}
+			}
+		case *ssa.Parameter:
+			fn := x.Parent()
+			idx := -1
+			for i, prm := range fn.Params {
+				if prm == x {
+					idx = i
+				}
+			}
+			for _, g := range mod {
+				for _, blk := range g.Blocks {
+					for _, in := range blk.Instrs {
+						if c, ok := in.(ssa.CallInstruction); ok && c.Common().StaticCallee() == fn && idx >= 0 && idx < len(c.Common().Args) {
+							judge(c.Common().Args[idx], depth+1, where+" <- "+g.Name())
+						}
+					}
+				}
+			}
+		}
+	}
+	for _, fn := range mod {
+		if fn.Pkg != rl.Msm.Pkg {
+			continue
+		}
+		for _, blk := range fn.Blocks {
+			for _, in := range blk.Instrs {
+				c, ok := in.(*ssa.Call)
+				if !ok {
+					continue
+				}
+				cal := c.Common().StaticCallee()
+				if cal == nil || ssau.PkgSuffix(cal) != "internal/modm" {
+					continue
+				}
+				switch cal.Name() {
+				case "LessThanVartime", "LessThanOrEqualVartime", "SubVartime":
+					sites++
+					args := c.Common().Args
+					judge(args[len(args)-1], 0, fn.Name()+" -> modm."+cal.Name()+" at "+ssau.InstrPos(p, c))
+				}
+			}
+		}
+	}
+	if len(bad) > 4 {
+		bad = bad[:4]
+	}
+	r.Check(len(bad) == 0 && sites > 0, "B10-limb-size", cfg, "every constant limb count handed to the variable-time scalar helpers by the multi-scalar family is LimbSize-1 of this layout", ssau.Pos(p, rl.Msm.Pos()),
+		fmt.Sprintf("%d call sites; constants traced through counters and helper parameters", sites), strings.Join(bad, "; ")+map[bool]string{true: "", false: " (no call site found)"}[sites > 0])
 }
